@@ -242,7 +242,7 @@ class Gen:
         x = r.random()
         if d <= 0 or x < 0.45:
             y = r.random()
-            if y < 0.2:
+            if y < 0.2 and self.bools:
                 return ["var", r.choice(self.bools)]
             if y < 0.26:
                 return ["bool", r.random() < 0.5]
@@ -298,6 +298,168 @@ class Gen:
         self.loop = None
         self.zero_offsets = False
         return ["for", lo, hi, use_n, body]
+
+
+class FGen(Gen):
+    """expressions over a fixed set of scalar names (function bodies, matrix models)"""
+
+    def __init__(self, rng, names, extra_atoms=()):
+        Gen.__init__(self, rng, 3, allow_ne=True, allow_fun=True)
+        self.reals = list(names)
+        self.bools = []
+        self.extra = list(extra_atoms)
+        self.in_loop = False
+
+    def atom(self):
+        r = self.rng
+        x = r.random()
+        if x < 0.25:
+            return ["num", r.choice(NUMS)]
+        if self.in_loop and x < 0.4:
+            return ["loopvar"]
+        if self.extra and x < 0.6:
+            return r.choice(self.extra)
+        return ["var", r.choice(self.reals)]
+
+    def boolean(self, d):
+        r = self.rng
+        if d <= 0 or r.random() < 0.6:
+            return ["bin", r.choice([">", "<", ">=", "<=", "<>", "=="]), self.real(max(d - 1, 0)), self.real(max(d - 1, 0))]
+        return Gen.boolean(self, d)
+
+
+def gen_function(rng, name, nout):
+    ins, outs, prot = ["u", "w"], ["a", "b"][:nout], ["t"]
+    allv = ins + outs + prot
+    g = FGen(rng, ins)
+    body = []
+    for v in outs + prot:                      # every local is assigned before it is read
+        body.append(["assign", v, g.real(1)])
+        g.reals.append(v)
+    locs = outs + prot
+    for _ in range(rng.randint(2, 4)):
+        x = rng.random()
+        if x < 0.3:
+            body.append(["assign", rng.choice(locs), g.real(2)])
+        elif x < 0.55:
+            # if-statement: every branch assigns the same variables once; right-hand sides and
+            # conditions read only variables the statement does not assign (or the target itself)
+            S = rng.sample(locs, rng.randint(1, min(2, len(locs))))
+            free = [v for v in allv if v not in S]
+            gc = FGen(rng, free)
+
+            def branch():
+                blk = []
+                for v in S:
+                    gv = FGen(rng, free + [v])
+                    blk.append(["assign", v, gv.real(1)])
+                return blk
+            body.append(["ifst", [[gc.boolean(1), branch()] for _ in range(rng.choice([1, 1, 2]))], branch()])
+        else:
+            # for-statement: 1-3 assignments that read each other's results across iterations
+            lo = rng.randint(1, 2)
+            hi = lo + rng.randint(1, 3)
+            g.in_loop = True
+            k = rng.choice([1, 2, 2, 3])
+            tg = rng.sample(locs, min(k, len(locs)))
+            blk = []
+            for j, v in enumerate(tg):
+                other = tg[(j + 1) % len(tg)]
+                form = rng.random()
+                if form < 0.6:
+                    e = ["bin", rng.choice(["+", "-"]), ["var", v], ["bin", "*", rng.choice([["loopvar"], ["num", "0.5"], ["var", "u"]]), ["var", other]]]
+                elif form < 0.8:
+                    e = ["bin", "-", ["var", other], ["bin", "*", ["num", "0.5"], ["var", v]]]
+                else:
+                    e = g.real(1)
+                blk.append(["assign", v, e])
+            g.in_loop = False
+            body.append(["forst", lo, hi, blk])
+    return {"name": name, "inputs": ins, "outputs": outs, "protected": prot, "body": body}
+
+
+def gen_fun_model(rng):
+    nout = rng.choice([1, 2, 2])
+    f = gen_function(rng, "F1", nout)
+    g = FGen(rng, ["x1", "x2", "x3", "u1", "p1", "time"])
+    eqs = []
+    if nout == 2:
+        eqs.append(["calleq", ["x1", "x2"], "F1", [g.real(1), g.real(1)]])
+        if rng.random() < 0.4:
+            eqs.append(["calleq", ["x3"], "F1", [g.real(1), g.real(1)]])       # truncated output list
+    else:
+        eqs.append(["calleq", ["x1"], "F1", [g.real(1), g.real(1)]])
+        eqs.append(["eq", ["var", "x2"], ["bin", "+", ["bin", "*", ["num", "2"], ["call", "F1", [g.real(1), ["num", "1.5"]]]], ["num", "1"]]])
+    eqs.append(["eq", ["var", "x3"], g.real(2)] if rng.random() < 0.5 else ["eq", g.real(1), g.real(1)])
+    return {"kind": "model", "name": "M", "N": 3, "eqs": eqs, "ieqs": [], "stream": "fun", "decl": "fun", "functions": [f]}
+
+
+M22 = [["A", "A"], ["A", "B"], ["A", "D"], ["sl", "C", [["r", 1, 2], ["r", 2, 3]]], ["sl", "C", [["r", 2, 3], ["r", 1, 2]]],
+       ["sl", "E", [":", ["r", 2, 3]]], ["sl", "E", [":", ["r", 1, 2]]], ["sl", "C", [["r", 1, 2], ["r", 1, 2]]]]
+
+
+def gen_aexpr(rng, g, ty, d):
+    r = rng
+    if d <= 0 or r.random() < 0.3:
+        if ty == "m22":
+            return r.choice(M22)
+        if ty == "v3":
+            return r.choice([["A", "v"], ["A", "w"], ["sl", "C", [":", r.randint(1, 3)]], ["sl", "C", [["r", 1, 3], r.randint(1, 3)]],
+                             ["sl", "v", [["r", 1, 3]]]])
+        return r.choice([["sl", "v", [["r", 1, 2]]], ["sl", "w", [["r", 2, 3]]], ["sl", "C", [["r", r.randint(1, 2), 0], r.randint(1, 3)]],
+                         ["sl", "E", [":", r.randint(1, 3)]], ["sl", "A", [":", r.randint(1, 2)]], ["sl", "B", [["r", 1, 2], r.randint(1, 2)]]])
+    x = r.random()
+    if x < 0.4:
+        return ["abin", r.choice(["+", "-", "+", "-", ".*"]), gen_aexpr(r, g, ty, d - 1), gen_aexpr(r, g, ty, d - 1)]
+    if x < 0.6:
+        return ["ascal", g.real(1) if r.random() < 0.5 else ["num", r.choice(["2", "0.5", "3"])], gen_aexpr(r, g, ty, d - 1)]
+    if x < 0.7:
+        return ["aneg", gen_aexpr(r, g, ty, d - 1)]
+    if x < 0.9:
+        if ty == "m22":
+            return ["abin", "*", gen_aexpr(r, g, "m22", d - 1), gen_aexpr(r, g, "m22", d - 1)]
+        if ty == "v2":
+            return ["abin", "*", gen_aexpr(r, g, "m22", d - 1), gen_aexpr(r, g, "v2", d - 1)]
+        return ["abin", "*", ["A", "C"], gen_aexpr(r, g, "v3", d - 1)]
+    if ty == "m22":
+        return ["atr", gen_aexpr(r, g, "m22", d - 1)]
+    return gen_aexpr(r, g, ty, d - 1)
+
+
+def fix_ranges(e):
+    """["r", lo, 0] placeholders -> lo:lo+1"""
+    if isinstance(e, list):
+        if len(e) == 3 and e[0] == "r" and e[2] == 0:
+            return ["r", e[1], e[1] + 1]
+        return [fix_ranges(x) for x in e]
+    return e
+
+
+def gen_mat_model(rng):
+    elems = [["idx2", n, i + 1, j + 1] for n, sh in MAT_DECL.items() if len(sh) == 2 for i in range(sh[0]) for j in range(sh[1])]
+    elems += [["idx", n, i + 1] for n in ("v", "w") for i in range(3)]
+    g = FGen(rng, ["x1", "u1", "p1", "time"], extra_atoms=elems)
+    eqs = []
+    for _ in range(rng.randint(3, 5)):
+        x = rng.random()
+        d = rng.choice([0, 1, 1, 2])
+        if x < 0.4:      # square matrices, whole or as a 2-D slice
+            lhs = rng.choice(M22)
+            eqs.append(["aeq", lhs, gen_aexpr(rng, g, "m22", d)])
+        elif x < 0.6:
+            lhs = rng.choice([["A", "v"], ["A", "w"], ["sl", "C", [":", rng.randint(1, 3)]], ["sl", "C", [rng.randint(1, 3), ":"]],
+                              ["sl", "E", [rng.randint(1, 2), ":"]]])
+            eqs.append(["aeq", lhs, gen_aexpr(rng, g, "v3", d)])
+        elif x < 0.8:
+            lhs = rng.choice([["sl", "v", [["r", 1, 2]]], ["sl", "w", [["r", 2, 3]]], ["sl", "C", [["r", 2, 3], rng.randint(1, 3)]],
+                              ["sl", "E", [":", rng.randint(1, 3)]], ["sl", "A", [rng.randint(1, 2), ":"]], ["sl", "A", [":", rng.randint(1, 2)]]])
+            eqs.append(["aeq", lhs, gen_aexpr(rng, g, "v2", d)])
+        elif x < 0.9:
+            eqs.append(["aeq", ["A", "E"], ["abin", rng.choice(["+", "-"]), ["ascal", g.real(1), ["A", "E"]], ["sl", "C", [["r", 1, 2], ":"]]]])
+        else:
+            eqs.append(["eq", rng.choice(elems + [["var", "x1"]]), g.real(2)])
+    ieqs = [["aeq", rng.choice(M22), gen_aexpr(rng, g, "m22", 1)]] if rng.random() < 0.5 else []
+    return {"kind": "model", "name": "M", "N": 3, "eqs": fix_ranges(eqs), "ieqs": fix_ranges(ieqs), "stream": "mat", "decl": "mat"}
 
 
 RANGE3 = [(1, 2, 5, 6), (1, 1, 3, 3), (2, 2, 6, 6), (1, 3, 4, 5), (1, 2, 3, 4)]
@@ -362,7 +524,54 @@ def pe(e):
         return "(%selse %s)" % (s, pe(e[2]))
     if t == "fun":
         return "%s(%s)" % (e[1], pe(e[2]))
+    if t == "idx2":
+        return "%s[%d,%d]" % (e[1], e[2], e[3])
+    if t == "call":
+        return "%s(%s)" % (e[1], ", ".join(pe(a) for a in e[2]))
     raise ValueError(t)
+
+
+def psub(x):
+    return ":" if x == ":" else ("%d:%d" % (x[1], x[2]) if isinstance(x, list) else str(x))
+
+
+def pa(e):
+    t = e[0]
+    if t == "A":
+        return e[1]
+    if t == "sl":
+        return "%s[%s]" % (e[1], ",".join(psub(x) for x in e[2]))
+    if t == "abin":
+        return "(%s %s %s)" % (pa(e[2]), e[1], pa(e[3]))
+    if t == "ascal":
+        return "(%s * %s)" % (pe(e[1]), pa(e[2]))
+    if t == "aneg":
+        return "(-%s)" % pa(e[1])
+    if t == "atr":
+        return "transpose(%s)" % pa(e[1])
+    raise ValueError(t)
+
+
+def pst(st, ind="  "):
+    if st[0] == "assign":
+        return "%s%s := %s;\n" % (ind, st[1], pe(st[2]))
+    if st[0] == "ifst":
+        s = ""
+        for i, (c, blk) in enumerate(st[1]):
+            s += "%s%s %s then\n%s" % (ind, "if" if i == 0 else "elseif", pe(c), "".join(pst(x, ind + "  ") for x in blk))
+        return s + "%selse\n%s%send if;\n" % (ind, "".join(pst(x, ind + "  ") for x in st[2]), ind)
+    if st[0] == "forst":
+        return "%sfor i in %d:%d loop\n%s%send for;\n" % (ind, st[1], st[2], "".join(pst(x, ind + "  ") for x in st[3]), ind)
+    raise ValueError(st[0])
+
+
+def pfun(f):
+    s = "function %s\n" % f["name"]
+    s += "".join("  input Real %s;\n" % n for n in f["inputs"])
+    s += "".join("  output Real %s;\n" % n for n in f["outputs"])
+    if f["protected"]:
+        s += "protected\n" + "".join("  Real %s;\n" % n for n in f["protected"])
+    return s + "algorithm\n" + "".join(pst(st) for st in f["body"]) + "end %s;\n\n" % f["name"]
 
 
 def pq(q, ind="  "):
@@ -377,13 +586,31 @@ def pq(q, ind="  "):
     if t == "for":
         return "%sfor i in %d:%s loop\n%s%send for;\n" % (ind, q[1], "n" if q[3] else str(q[2]),
                                                           "".join(pq(x, ind + "  ") for x in q[4]), ind)
+    if t == "calleq":
+        lhs = q[1][0] if len(q[1]) == 1 else "(%s)" % ", ".join(q[1])
+        return "%s%s = %s(%s);\n" % (ind, lhs, q[2], ", ".join(pe(a) for a in q[3]))
+    if t == "aeq":
+        return "%s%s = %s;\n" % (ind, pa(q[1]), pa(q[2]))
     if t == "for3":
         return "%sfor i in %d:%d:%d loop\n%s%send for;\n" % (ind, q[1], q[2], q[3],
                                                              "".join(pq(x, ind + "  ") for x in q[4]), ind)
     raise ValueError(t)
 
 
+MAT_DECL = {"A": (2, 2), "B": (2, 2), "D": (2, 2), "C": (3, 3), "E": (2, 3), "v": (3,), "w": (3,)}
+
+
 def model_text(m):
+    if m.get("decl") == "fun":
+        s = "".join(pfun(f) for f in m["functions"])
+        s += "model M\n  input Real u1;\n  Real x1; Real x2; Real x3;\n  parameter Real p1 = 1.5;\n"
+        return s + "equation\n" + "".join(pq(q) for q in m["eqs"]) + "end M;\n"
+    if m.get("decl") == "mat":
+        s = "model M\n" + "".join("  Real %s[%s];\n" % (n, ",".join(str(d) for d in sh)) for n, sh in MAT_DECL.items())
+        s += "  Real x1;\n  input Real u1;\n  parameter Real p1 = 1.5;\n"
+        if m["ieqs"]:
+            s += "initial equation\n" + "".join(pq(q) for q in m["ieqs"])
+        return s + "equation\n" + "".join(pq(q) for q in m["eqs"]) + "end M;\n"
     s = "model M\n  parameter Integer n = %d;\n  Real x1; Real x2; Real x3;\n  input Real u1;\n" % m["N"]
     s += "  parameter Real p1 = 1.5;\n  constant Real k1 = 2.0;\n  Boolean b1; Boolean b2;\n"
     s += "  Real a[n]; Real c[%d];\n" % m["N"]
@@ -413,18 +640,38 @@ def gen_point(rng, N):
 
 
 def fr(x):
-    return [str(v) for v in x] if isinstance(x, list) else str(x)
+    return [fr(v) for v in x] if isinstance(x, list) else str(x)
 
 
 def unfr(x):
-    return [Fraction(v) for v in x] if isinstance(x, list) else Fraction(x)
+    return [unfr(v) for v in x] if isinstance(x, list) else Fraction(x)
+
+
+def to_child(v):
+    """exact value -> floats for the child; matrices (lists of rows) flattened column-major"""
+    if isinstance(v, list) and v and isinstance(v[0], list):
+        return [float(v[i][j]) for j in range(len(v[0])) for i in range(len(v))]
+    return [float(x) for x in v] if isinstance(v, list) else float(v)
+
+
+def gen_point_decl(rng, decl):
+    def dy():
+        return Fraction(rng.randint(-16, 16), 8)
+    p = {"x1": dy(), "x2": dy(), "x3": dy(), "u1": dy(), "p1": dy(), "time": dy()}
+    if decl == "mat":
+        for n, sh in MAT_DECL.items():
+            p[n] = [dy() for _ in range(sh[0])] if len(sh) == 1 else [[dy() for _ in range(sh[1])] for _ in range(sh[0])]
+    return p
 
 
 def finalize(m, rng, npoints):
     m["text"] = model_text(m)
-    pts = [gen_point(rng, m["N"]) for _ in range(npoints)]
+    if m.get("decl") in ("fun", "mat"):
+        pts = [gen_point_decl(rng, m["decl"]) for _ in range(npoints)]
+    else:
+        pts = [gen_point(rng, m["N"]) for _ in range(npoints)]
     m["xpoints"] = [{k: fr(v) for k, v in p.items()} for p in pts]
-    m["points"] = [{k: ([float(x) for x in v] if isinstance(v, list) else float(v)) for k, v in p.items()} for p in pts]
+    m["points"] = [{k: to_child(v) for k, v in p.items()} for p in pts]
     return m
 
 
@@ -451,6 +698,7 @@ class Ev:
         self.i = None
         self.ftab = []
         self.range3 = range3
+        self.funs = {}
 
     # reals: (val, lo, hi)
     def real(self, e):
@@ -461,7 +709,14 @@ class Ev:
             return v, min(v, f), max(v, f)
         if t == "var":
             v = self.p[e[1]]
+            if isinstance(v, tuple):      # inside a function body: (val, lo, hi)
+                return v
             return v, v, v
+        if t == "idx2":
+            v = self.p[e[1]][e[2] - 1][e[3] - 1]
+            return v, v, v
+        if t == "call":
+            return self.call(e[1], e[2])[0]
         if t == "der":
             v = self.p["der(%s)" % e[1]]
             return v, v, v
@@ -534,6 +789,122 @@ class Ev:
             eps = Fraction(1, 10 ** 9)
             return v, lo - m * eps - Fraction(1, 10 ** 12), hi + m * eps + Fraction(1, 10 ** 12)
         raise ValueError("not a Real expression: %s" % t)
+
+    # ---- user functions: sequential interpreter (Modelica algorithm semantics) ----------------
+    def call(self, fname, args):
+        f = self.funs[fname]
+        vals = [self.real(a) for a in args]
+        inner = Ev(dict(zip(f["inputs"], vals)))
+        inner.funs = self.funs
+        inner.run(f["body"])
+        self.ftab += inner.ftab
+        return [inner.p[o] for o in f["outputs"]]
+
+    def run(self, stmts):
+        for st in stmts:
+            if st[0] == "assign":
+                self.p[st[1]] = self.real(st[2])
+            elif st[0] == "ifst":
+                blk = st[2]
+                for c, b in st[1]:
+                    if self.truth(c)[0]:
+                        blk = b
+                        break
+                self.run(blk)
+            elif st[0] == "forst":
+                for i in range(st[1], st[2] + 1):
+                    self.i = i
+                    self.run(st[3])
+                self.i = None
+            else:
+                raise ValueError(st[0])
+
+    # ---- arrays: {"shape": (n,) | (n, m), "d": {index tuple: (val, lo, hi)}} -------------------
+    def tri(self, op, x, y):
+        a, alo, ahi = x
+        b, blo, bhi = y
+        if op == "+":
+            return (a + b,) + widen(alo + blo, ahi + bhi)
+        if op == "-":
+            return (a - b,) + widen(alo - bhi, ahi - blo)
+        c = [alo * blo, alo * bhi, ahi * blo, ahi * bhi]
+        return (a * b,) + widen(min(c), max(c))
+
+    def arr(self, e):
+        t = e[0]
+        if t == "A":
+            v = self.p[e[1]]
+            if v and isinstance(v[0], list):
+                return {"shape": (len(v), len(v[0])), "d": {(i, j): (x, x, x) for i, row in enumerate(v) for j, x in enumerate(row)}}
+            return {"shape": (len(v),), "d": {(i,): (x, x, x) for i, x in enumerate(v)}}
+        if t == "sl":
+            base = self.arr(["A", e[1]])
+            sel = []
+            for dim, sub in zip(base["shape"], e[2]):
+                if sub == ":":
+                    sel.append(list(range(dim)))
+                elif isinstance(sub, list):
+                    sel.append(list(range(sub[1] - 1, sub[2])))
+                else:
+                    sel.append(sub - 1)       # scalar subscript: the dimension disappears
+            keep = [x for x in sel if isinstance(x, list)]
+            shape = tuple(len(x) for x in keep)
+            d = {}
+            if len(keep) == 1:
+                for a, i in enumerate(keep[0]):
+                    d[(a,)] = base["d"][tuple(i if isinstance(x, list) else x for x in sel)]
+            else:
+                for a, i in enumerate(keep[0]):
+                    for b, j in enumerate(keep[1]):
+                        d[(a, b)] = base["d"][(i, j)]
+            return {"shape": shape, "d": d}
+        if t == "abin":
+            x, y = self.arr(e[2]), self.arr(e[3])
+            if e[1] == "*":                   # Modelica matrix product
+                if len(x["shape"]) != 2:
+                    raise ValueError("matrix product lhs")
+                n, k = x["shape"]
+                if len(y["shape"]) == 1:
+                    d = {}
+                    for i in range(n):
+                        acc = None
+                        for l in range(k):
+                            pr = self.tri("*", x["d"][(i, l)], y["d"][(l,)])
+                            acc = pr if acc is None else self.tri("+", acc, pr)
+                        d[(i,)] = acc
+                    return {"shape": (n,), "d": d}
+                m = y["shape"][1]
+                d = {}
+                for i in range(n):
+                    for j in range(m):
+                        acc = None
+                        for l in range(k):
+                            pr = self.tri("*", x["d"][(i, l)], y["d"][(l, j)])
+                            acc = pr if acc is None else self.tri("+", acc, pr)
+                        d[(i, j)] = acc
+                return {"shape": (n, m), "d": d}
+            if x["shape"] != y["shape"]:
+                raise ValueError("shape mismatch")
+            op = {"+": "+", "-": "-", ".*": "*"}[e[1]]
+            return {"shape": x["shape"], "d": {k: self.tri(op, x["d"][k], y["d"][k]) for k in x["d"]}}
+        if t == "ascal":
+            sc = self.real(e[1])
+            x = self.arr(e[2])
+            return {"shape": x["shape"], "d": {k: self.tri("*", sc, v) for k, v in x["d"].items()}}
+        if t == "aneg":
+            x = self.arr(e[1])
+            return {"shape": x["shape"], "d": {k: (-v[0], -v[2], -v[1]) for k, v in x["d"].items()}}
+        if t == "atr":
+            x = self.arr(e[1])
+            return {"shape": x["shape"][::-1], "d": {(j, i): v for (i, j), v in x["d"].items()}}
+        raise ValueError(t)
+
+    @staticmethod
+    def flat(x):
+        if len(x["shape"]) == 1:
+            return [x["d"][(i,)] for i in range(x["shape"][0])]
+        n, m = x["shape"]
+        return [x["d"][(i, j)] for j in range(m) for i in range(n)]     # column-major = veccat
 
     def power(self, a, alo, ahi, ex):
         n, nlo, nhi = self.real(ex)
@@ -648,6 +1019,18 @@ class Ev:
         for q in eqs:
             if q[0] == "eq":
                 out.append([self.res1(q)])
+            elif q[0] == "calleq":
+                outs = self.call(q[2], q[3])[:len(q[1])]
+                r = []
+                for name, o in zip(q[1], outs):
+                    v = self.p[name]
+                    r.append((v - o[0],) + widen(v - o[2], v - o[1]))
+                out.append(r)
+            elif q[0] == "aeq":
+                x, y = self.arr(q[1]), self.arr(q[2])
+                if x["shape"] != y["shape"]:
+                    raise ValueError("array equation between different shapes")
+                out.append([self.tri("-", a, b) for a, b in zip(self.flat(x), self.flat(y))])
             elif q[0] == "ifeq":
                 blk = q[2]
                 for c, b in q[1]:
@@ -687,6 +1070,7 @@ def judge(m, r, range3="modelica"):
     for pi, xp in enumerate(m["xpoints"]):
         p = {k: unfr(v) for k, v in xp.items()}
         ev = Ev(p, range3)
+        ev.funs = {f["name"]: f for f in m.get("functions", [])}
         try:
             exp_d = ev.residual(m["eqs"])
             exp_i = ev.residual(m["ieqs"])
@@ -719,6 +1103,21 @@ def empty_offset_loop(m):
     return False
 
 
+def const_for_statement(m):
+    """a user function with a for-statement all of whose right-hand sides are constants"""
+    def const(e):
+        return not any(k in json.dumps(e) for k in ('"var"', '"loopvar"', '"call"'))
+
+    def scan(stmts):
+        for st in stmts:
+            if st[0] == "forst" and all(const(x[2]) for x in st[3]):
+                return True
+            if st[0] == "ifst" and (any(scan(b) for _, b in st[1]) or scan(st[2])):
+                return True
+        return False
+    return any(scan(f["body"]) for f in m.get("functions", []))
+
+
 def tag_of(m, r, why):
     """narrow tags of the two known findings; anything else is a plain violation"""
     if r.get("generate") == "raised" and r.get("exc") == "Exception" and "Unknown function <>" in r.get("msg", "") \
@@ -727,6 +1126,9 @@ def tag_of(m, r, why):
     if r.get("generate") == "raised" and r.get("exc") == "RuntimeError" and "Degenerate map operation" in r.get("msg", "") \
             and empty_offset_loop(m):
         return "empty-loop-offset-subscript"
+    if r.get("generate") == "raised" and r.get("exc") == "RuntimeError" and "'symvar' not defined for DM" in r.get("msg", "") \
+            and const_for_statement(m):
+        return "for-statement-constant-body"
     if has(m, '"for3"'):
         alt, _ = judge(m, r, range3="code")
         if alt is None:
@@ -793,7 +1195,7 @@ def cqn(q):
 
 def encode_cases(m, r):
     """one Coq case per judged point (or one case with impl_ok = false)"""
-    if has(m, '"for3"') or empty_offset_loop(m):
+    if has(m, '"for3"') or empty_offset_loop(m) or m.get("decl") in ("fun", "mat"):
         return []      # outside the Coq model (known findings), judged by the oracle only
     eqs = m["eqs"] + m["ieqs"]
     if r.get("generate") != "ok":
@@ -888,7 +1290,12 @@ def run_models(ctx, cases):
 
 
 def slim(m):
-    return {k: m[k] for k in ("kind", "name", "N", "eqs", "ieqs", "stream", "text", "xpoints", "points")}
+    return {k: m[k] for k in ("kind", "name", "N", "eqs", "ieqs", "stream", "text", "xpoints", "points", "decl", "functions",
+                              "options") if k in m}
+
+
+def child_case(m):
+    return {"kind": "model", "name": m["name"], "text": m["text"], "points": m["points"], "options": m.get("options")}
 
 
 def tie(ctx, gen_v, info):
@@ -943,9 +1350,19 @@ def run(ctx):
         models.append(finalize(gen_model(ctx.rng, "for3"), ctx.rng, npts))
     for _ in range(n_eo):
         models.append(finalize(gen_model(ctx.rng, "emptyoff"), ctx.rng, npts))
+    n_fun = ctx.scaled(24, 150)
+    n_mat = ctx.scaled(50, 400)
+    for _ in range(n_fun):
+        base = finalize(gen_fun_model(ctx.rng), ctx.rng, npts)
+        for opt in (None, {"inline_functions": False}, {"unroll_loops": False}):
+            mm = dict(base)
+            mm["options"] = opt
+            models.append(mm)
+    for _ in range(n_mat):
+        models.append(finalize(gen_mat_model(ctx.rng), ctx.rng, npts))
     import time as _t
     t_child = _t.time()
-    results = run_models(ctx, [{"kind": "model", "name": m["name"], "text": m["text"], "points": m["points"]} for m in models])
+    results = run_models(ctx, [child_case(m) for m in models])
 
     ctx.notes["t_child_s"] = round(_t.time() - t_child, 1)
     # (a) oracle
@@ -960,10 +1377,11 @@ def run(ctx):
             core.report(ctx, tag_of(m, r, why), why, {"input": slim(m), "observed": r,
                                                       "expected": "residual = lhs - rhs of every flat equation (Modelica semantics)"})
         if st["points"]:
-            distinct.add(m["text"])
+            distinct.add(m["text"] + json.dumps(m.get("options")))
         for tok in ('"/"', '"./"', '"^"', '"min"', '"max"', '"abs"', '"if"', '"ifeq"', '"for"', '"and"', '"or"', '"not"',
-                    '"fun"', '"lidx"', '"loopvar"', '"der"', '"<>"', '"for3"', '"=="', '".*"'):
-            if has(m, tok):
+                    '"fun"', '"lidx"', '"loopvar"', '"der"', '"<>"', '"for3"', '"=="', '".*"', '"calleq"', '"call"', '"aeq"', '"sl"',
+                    '"idx2"', '"atr"', '"ascal"'):
+            if has(m, tok) or tok in json.dumps(m.get("functions", [])):
                 opcount[tok.strip('"')] = opcount.get(tok.strip('"'), 0) + 1
 
     ctx.notes["t_oracle_s"] = round(_t.time() - t_child - ctx.notes["t_child_s"], 1)
@@ -1004,18 +1422,18 @@ def run(ctx):
         m.setdefault("stream", "known")
         if "xpoints" not in m:
             finalize(m, ctx.rng, 2)
-        r = run_models(ctx, [{"kind": "model", "name": m["name"], "text": m["text"], "points": m["points"]}])[0]
+        r = run_models(ctx, [child_case(m)])[0]
         why, _ = judge(m, r)
         return bool(why) and tag_of(m, r, why) == entry["tag"]
     core.replay_known(ctx, still_fails)
 
     ctx.cov["evaluations"] = tot["entries"]
     ctx.cov["distinct_nontrivial"] = len(distinct)
-    ctx.cov["rule"] = ("%d generated models (%d corpus, %d plain, %d with '<>', %d with a three-part range, %d with an empty offset loop) x %d dyadic points; "
+    ctx.cov["rule"] = ("%d generated models (%d corpus, %d plain, %d with '<>', %d with a three-part range, %d with an empty offset loop, %d with a user function x 3 option sets, %d with matrices/slices) x %d dyadic points; "
                        "an evaluation = one residual entry compared with the exact lhs - rhs; distinct non-trivial = distinct "
                        "model texts with at least one judged point; %d points judged, %d skipped (division by zero / domain / "
                        "relation within rounding distance of a tie); %d Coq correspondence cases"
-                       % (len(models), n_corpus, n_plain, n_ne, n_r3, n_eo, npts, tot["points"], tot["skipped"], len(enc)))
+                       % (len(models), n_corpus, n_plain, n_ne, n_r3, n_eo, n_fun, n_mat, npts, tot["points"], tot["skipped"], len(enc)))
     ctx.cov["samples"] = [models[n_corpus]["text"], models[n_corpus + 1]["text"][:600]]
     ctx.notes["input_distribution"] = {"models_using": opcount, "models": len(models)}
     ctx.assumptions += [
@@ -1023,8 +1441,10 @@ def run(ctx):
         "not modelled: a binary64 residual is accepted iff it lies in a rigorous enclosure of all roundings of the exact value",
         "elementary functions are uninterpreted in the theorems; in the oracle/correspondence they are Python's math functions "
         "applied to the exactly evaluated argument (relative tolerance 1e-9)",
-        "matrices, slices, whole-array equations, user functions with algorithm sections, nested loops, delay, interpolation "
-        "are outside the Coq model and outside the generated subset of this check",
+        "user functions (assignment / if / for statements, multi-statement loop bodies, option sets default, inline_functions="
+        "False, unroll_loops=False) and 2-D arrays (whole-array equations, matrix product, transpose, element and slice "
+        "references, 1-D slices) are generated and judged by the independent exact oracle but are NOT in the Coq model "
+        "(oracle-only); nested loops, delay, interpolation, 3-D arrays are not generated",
         "relations on Boolean operands (e.g. (a or b) == c) are outside the typed grammar (typeof)",
     ]
 
@@ -1032,7 +1452,7 @@ def run(ctx):
 def replay(ctx, path):
     rec = json.load(open(path))
     m = rec.get("input") or rec.get("replay")
-    r = run_models(ctx, [{"kind": "model", "name": m["name"], "text": m["text"], "points": m["points"]}])[0]
+    r = run_models(ctx, [child_case(m)])[0]
     why, _ = judge(m, r)
     print("replay:", why or "property holds on this model at these points")
     if why:
